@@ -172,6 +172,8 @@ pub enum Fmt {
 }
 
 pub struct Sys {
+    /// present when the job runs with authentication enabled (bypass_auth = false)
+    pub auth: Option<Arc<snel_db::engine::auth::AuthManager>>,
     pub cfg: SysConfig,
     pub root: PathBuf,
     pub sm: Arc<ShardManager>,
@@ -208,7 +210,17 @@ impl Sys {
             shared.push(st);
         }
         let sm = Arc::new(ShardManager { shards });
-        let sys = Sys { cfg, root: root.to_path_buf(), sm, registry, shared };
+        // what FrontendContext::from_config does for the auth manager
+        let auth = if cfg.bypass_auth {
+            None
+        } else {
+            let am = Arc::new(snel_db::engine::auth::AuthManager::new(Arc::clone(&sm)));
+            let _ = am.load_from_db().await;
+            let _ = am.bootstrap_admin_user().await;
+            let _ = am.load_from_db().await;
+            Some(am)
+        };
+        let sys = Sys { auth, cfg, root: root.to_path_buf(), sm, registry, shared };
         sys.barrier().await;
         sys
     }
@@ -250,6 +262,23 @@ impl Sys {
             // what every frontend answers when the command does not parse
             Err(e) if e.starts_with("parse:") => crate::decode::Reply { status: 400, message: format!("PARSE ERROR {e}"), ..Default::default() },
             Err(e) => crate::decode::Reply::failed(e),
+        }
+    }
+
+    /// One input line as the TCP listener handles it: authentication gate, parse, dispatch.
+    pub async fn serve_line(&self, line: &str, gate: &mut snel_db::frontend::tcp::listener::verif_api::GateState) -> (crate::decode::Reply, Option<String>, Option<String>) {
+        use snel_db::frontend::tcp::listener::verif_api;
+        match verif_api::gate(line, gate).await {
+            None => (crate::decode::Reply { status: 401, message: "ERROR: Authentication failed".into(), ..Default::default() }, None, None),
+            Some((cmd, user, Some(token))) if cmd == "OK" => (crate::decode::Reply { status: 200, message: "OK TOKEN".into(), ..Default::default() }, user, Some(token)),
+            Some((cmd, user, _)) => {
+                let reply = match self.exec_as(&cmd, Fmt::Json, self.auth.as_ref(), user.as_deref()).await {
+                    Ok(bytes) => crate::decode::decode_json(&bytes),
+                    Err(e) if e.starts_with("parse:") => crate::decode::Reply { status: 400, message: format!("PARSE ERROR {e}"), ..Default::default() },
+                    Err(e) => crate::decode::Reply::failed(e),
+                };
+                (reply, user, None)
+            }
         }
     }
 
